@@ -115,9 +115,11 @@ func (z *ZodTypeInternals) Clone() *ZodTypeInternals {
 	if len(z.Values) > 0 {
 		cp.Values = maps.Clone(z.Values)
 	}
-	if len(z.Bag) > 0 {
-		cp.Bag = maps.Clone(z.Bag)
-	}
+	// Always give the copy its own Bag, even while it is still empty: an empty map shared
+	// between a schema and the schemas derived from it would receive the annotations that
+	// are written later for only one of them (Record.Partial, JSON Schema conversion).
+	// maps.Clone keeps a nil Bag nil.
+	cp.Bag = maps.Clone(z.Bag)
 	return &cp
 }
 
